@@ -223,6 +223,10 @@ def cli_case(ctx, k):
     opts = ["--action", action, "-n", str(times), "-e", rng.choice(["0.1", "0.2", "0.5"]), "-O", str(rng.choice([2, 3, 5])), "--no-index"]
     post = []
     rename = rng.random() < 0.25 and not paired
+    # paired: what the later stages see of the matches ({adapter_name} per mate, a filter that asks about R1 only)
+    paired_rename = paired and rng.random() < 0.4
+    if paired and rng.random() < 0.3:
+        post += [rng.choice(["--discard-untrimmed", "--discard-trimmed"]), "--pair-filter", "first"]
     if rng.random() < 0.4 and action == "trim":
         post += ["-l", str(rng.choice([12, -9]))]
     if rng.random() < 0.3 and action == "trim":
@@ -255,7 +259,9 @@ def cli_case(ctx, k):
         adargs = [x for a in ads1 + ads2 for x in a["argv"]]
         ren = ["--rename", "{id} {rc}"] if rename else []
         out = lambda t: ["-o", f"{t}1.fq"] + (["-p", f"{t}2.fq"] if paired else [])
-        base = adargs + opts + post
+        base = adargs + opts + post + (["--rename", "{id} {adapter_name}|{match_sequence}"] if paired_rename else [])
+        if paired_rename:
+            ctx.count("cli_paired_runs_with_adapter_names_in_the_read_names")
         side_files = (not paired) and rng.random() < 0.6
         side = (lambda t: ["--info-file", f"{t}.info", "--rest-file", f"{t}.rest"]) if side_files else (lambda t: [])
         out0 = out
@@ -325,6 +331,8 @@ def cli_case(ctx, k):
                     continue
                 if rename:
                     exp_name = f"{key} {'rc' if use else ''}"
+                elif paired_rename:
+                    exp_name = ref[0]       # any --rename switches the suffix off; the name shows this mate's own match
                 else:
                     exp_name = ref[0] + (" rc" if use else "")
                 if (rr[1], rr[2]) != (ref[1], ref[2]):
